@@ -12,7 +12,7 @@ from pymbolic.parser import Parser as ParserBase
 from pymbolic.mapper import Mapper
 import pymbolic.primitives as pmbl
 from pymbolic.parser import (
-    _openpar, _closepar, _minus, FinalizedTuple,
+    _openpar, _closepar, _minus, FinalizedTuple, _PREC_LOGICAL_AND,
     _PREC_TIMES, _PREC_PLUS, _PREC_CALL, _times, _plus
 )
 try:
@@ -299,6 +299,10 @@ class ExpressionParser(ParserBase):
             # In Fortran, exponentiation binds tighter than the unary minus: -a**b is -(a**b)
             left_exp = pmbl.Product((-1, self.parse_expression(pstate, _PREC_TIMES)))
             return left_exp
+        if pstate.is_next(self._f_not):
+            pstate.advance()
+            # In Fortran, .not. binds weaker than the relational operators: .not. a == b is .not. (a == b)
+            return pmbl.LogicalNot(self.parse_expression(pstate, _PREC_LOGICAL_AND))
         if pstate.is_next(_openpar):
             pstate.advance()
 
